@@ -7,6 +7,7 @@
         lori <lid> <quat> <tween> | cb <frames>
         qtween <qa> <qb> <t> | vtween <va> <vb> <t> | linterp <pos> <ori> <ppos> <pori> <t>   (glam kernels)
         scene <lpos> <lquat> <epos> <min> <max> <atten|none> <strength> <l> <r>   (self-contained)
+  `cb` and `scene` end with `def|undef`: is every frame on the main bus finite before the device stage?
   vectors are `x,y,z` / `x,y,z,w` (f32 bits); values are `fix,<f32>` or `dist,<i0>,<i1>,<o0>,<o1>,<easing>`.
 -/
 import KiraModel.Exec.SuiteParam
@@ -100,16 +101,17 @@ def spatialStep (st : Option (Scene Float)) (tok : List String) : Option (Option
                   sounds := [⟨l, r⟩] }
       let sc := { sc with pending := [mkListener 1 lp lq], tracks := [tr] }
       let strength := clamp str 0.0 1.0
-      let dflag := match spatializeChecked att mn mx ep strength (⟨l, r⟩ : Frame Float) lp lq lq 0.0 with
-        | .ok _ => "def"
-        | .error .clampMinGtMax => "def"
-        | .error (.nonFinite _) => "undef"
-      -- since the renderer replaces NaN by silence before the clamp, an undefined (NaN) level is no longer
-      -- visible in the device samples: the flag printed by the harness is "both samples finite"
-      let _ := dflag
-      match sc.callback 1 with
-      | .ok r => pure (st, s!"{showFrames r.out} {if r.out.all (fun f => f.left.isFinite && f.right.isFinite) then "def" else "undef"}")
-      | .error e => pure (st, s!"fault {e.name}")
+      -- "def": no divisor is zero (`spatializeChecked`, the notion `C15_defined` is about) — which has to
+      -- coincide with "every frame on the main bus, before the renderer's NaN scrub, is finite" (the flag
+      -- the harness prints, seen by an effect on the main track); anything else is printed as such
+      let checked := match spatializeChecked att mn mx ep strength (⟨l, r⟩ : Frame Float) lp lq lq 0.0 with
+        | .ok _ => true
+        | .error _ => false
+      let r := sc.callback 1
+      let busFinite := r.bus.all (fun f => f.left.isFinite && f.right.isFinite)
+      let flag := if checked && busFinite then "def" else if !checked && !busFinite then "undef"
+        else s!"inconsistent(checked={checked},bus={busFinite})"
+      pure (st, s!"{showFrames r.out} {flag}")
   | _ =>
     match st with
     | none => none
@@ -150,9 +152,9 @@ def spatialStep (st : Option (Scene Float)) (tok : List String) : Option (Option
           pure (some (mapListener sc lid (fun l => { l with cmdOri := some (.fixed q, tw) })), "ok")
       | "cb" :: frames :: _ => do
           let frames ← nat? frames
-          match sc.callback frames with
-          | .ok r => pure (some r.scene, showFrames r.out ++ showLog r.log)
-          | .error e => pure (some sc, s!"fault {e.name}")
+          let r := sc.callback frames
+          let busFinite := r.bus.all (fun f => f.left.isFinite && f.right.isFinite)
+          pure (some r.scene, showFrames r.out ++ showLog r.log ++ (if busFinite then " def" else " undef"))
       | _ => none
 
 end K.Exec
